@@ -44,6 +44,10 @@ func main() {
 		os.Exit(cmdWorker(os.Args[2:]))
 	case "replay":
 		os.Exit(cmdReplay(os.Args[2:]))
+	case "c09digest":
+		sh, _ := strconv.Atoi(os.Args[2])
+		of, _ := strconv.Atoi(os.Args[3])
+		props.C09Digest(sh, of, os.Args[4])
 	default:
 		fmt.Fprintln(os.Stderr, "unknown command", os.Args[1])
 		os.Exit(2)
